@@ -58,9 +58,14 @@ impl Cylinder {
     ) -> Option<Either<Self, super::ConvexPolyhedron>> {
         if scale.x != scale.z {
             // The scaled shape isn’t a cylinder.
-            let (mut vtx, idx) = self.to_trimesh(nsubdivs);
+            let (mut vtx, mut idx) = self.to_trimesh(nsubdivs);
             vtx.iter_mut()
                 .for_each(|pt| pt.coords = pt.coords.component_mul(scale));
+            // A mirror image (odd number of negative factors) turns the outward
+            // orientation of the triangles inwards: restore it.
+            if scale.x * scale.y * scale.z < 0.0 {
+                idx.iter_mut().for_each(|t| t.swap(0, 1));
+            }
             Some(Either::Right(super::ConvexPolyhedron::from_convex_mesh(
                 vtx, &idx,
             )?))
